@@ -49,3 +49,12 @@ Proof. exact disabled_terrapin_algs_suppressed. Qed.
 Theorem c04_suppressed_never_recommended : forall sw d k suppress r,
   In r (recommendations sw d k suppress) -> ~ In (r_name r) suppress.
 Proof. exact recs_never_suppressed. Qed.
+
+(* literals the model repeats from the source are the ones the translator extracts from the current source (gen/Tables.v) *)
+From VGen Require Import Tables.
+From VModel Require Import Terrapin.
+From VProofs Require Import TieProofs.
+Theorem c04_tie_terrapin_markers : [marker_c; marker_s] = src_pp_markers.
+Proof. exact tie_terrapin_markers. Qed.
+Theorem c04_tie_advisory : advisory_prefix = src_advisory_prefix /\ advisory_suffix = src_advisory_suffix.
+Proof. exact tie_advisory. Qed.
